@@ -8,7 +8,8 @@ import ALV.Lemmas.C04Sparse
 set_option linter.unusedSectionVars false
 set_option linter.unusedSimpArgs false
 namespace ALV.C04
-variable {K : Type} [Field K] [DecidableEq K]
+/- no algebraic law is used in this file: any coefficient type with a zero and decidable equality -/
+variable {K : Type} [OfNat K 0] [DecidableEq K]
 
 theorem foldl_tinsert_sorted (pairs : List (Int × K)) : ∀ (acc : Terms K),
     List.Pairwise (fun x y : Int × K => x.1 < y.1) acc →
